@@ -12,7 +12,11 @@ SD2 == ClampedDirs({2}, <<R(1,4), R(3,4)>>, 2) \cup ClampedDirs({3}, <<Half>>, 1
 SurfSet == IF SurfMode = 0 THEN {} ELSE
   IF SurfMode = 1 THEN {s \in Surfaces(SD1, SD1, {3}, BOOLEAN, Seed) : s.size[1] # s.size[2] \/ s.kv[1] # s.kv[2]}
   ELSE Surfaces(SD1 \cup SD2, SD1, {3}, BOOLEAN, Seed) \cup Surfaces(SD1, SD2, {3}, BOOLEAN, Seed)
-Shapes == CurveSet \cup SurfSet
+\* non-normalised ranges with 0 strictly inside ([-1, 1] with a knot at 0; different ranges per direction)
+RawC == <<2, AffineKV(MkClamped(2, <<R(1,4), Half>>, <<1, 1>>), RI(2), RI(-1))>>
+RawD == <<1, AffineKV(MkClamped(1, <<Half>>, <<1>>), RI(3), RI(0))>>
+RawSet == Curves({RawC}, {2}, BOOLEAN, Seed) \cup (IF SurfMode = 0 THEN {} ELSE Surfaces({RawC}, {RawD}, {3}, {TRUE}, Seed) \cup Surfaces({RawD}, {RawC}, {3}, {FALSE}, Seed))
+Shapes == CurveSet \cup SurfSet \cup RawSet
 Init == sh \in Shapes /\ out = [op |-> "init"]
 
 SplitVals(d) == {x \in Breaks(sh.kv[d]) \cup SpanSamples(sh.deg[d], sh.kv[d], 1) : CanSplit(sh, d, x)}
@@ -41,19 +45,20 @@ PieceMatchesBox(piece, orig, los, his) ==
   \A prm \in SampleParams(piece) :
      PointH(piece, prm) = PointH(orig, [d \in 1..PDim(orig) |-> RAdd(los[d], RMul(prm[d], RSub(his[d], los[d])))])
 SpanList(d) == LET B == BreakSeq(sh.kv[d]) IN [i \in 1..(Len(B) - 1) |-> <<B[i], B[i + 1]>>]
-Full == <<Zero, One>>
+FullD(d) == <<DomLo(sh.deg[d], sh.kv[d]), DomHi(sh.deg[d], sh.kv[d])>>
 T_Split == out.op = "split" =>
   LET d == out.d u == out.u
-      lo1 == [e \in 1..PDim(sh) |-> Zero]  hi1 == [e \in 1..PDim(sh) |-> IF e = d THEN u ELSE One]
-      lo2 == [e \in 1..PDim(sh) |-> IF e = d THEN u ELSE Zero]  hi2 == [e \in 1..PDim(sh) |-> One]
+      Lo(e) == DomLo(sh.deg[e], sh.kv[e])  Hi(e) == DomHi(sh.deg[e], sh.kv[e])
+      lo1 == [e \in 1..PDim(sh) |-> Lo(e)]  hi1 == [e \in 1..PDim(sh) |-> IF e = d THEN u ELSE Hi(e)]
+      lo2 == [e \in 1..PDim(sh) |-> IF e = d THEN u ELSE Lo(e)]  hi2 == [e \in 1..PDim(sh) |-> Hi(e)]
   IN /\ PieceMatchesBox(out.pieces[1], sh, lo1, hi1)
      /\ PieceMatchesBox(out.pieces[2], sh, lo2, hi2)
      /\ WellFormed(out.pieces[1]) /\ WellFormed(out.pieces[2])
 T_Decompose == out.op = "decompose" =>
   LET su == SpanList(1)
-      sv == IF PDim(sh) = 2 THEN SpanList(2) ELSE <<Full>>
-      boxes == IF out.dir = "u" THEN [i \in 1..Len(su) |-> <<su[i], Full>>]
-               ELSE IF out.dir = "v" THEN [j \in 1..Len(sv) |-> <<Full, sv[j]>>]
+      sv == IF PDim(sh) = 2 THEN SpanList(2) ELSE <<FullD(1)>>
+      boxes == IF out.dir = "u" THEN [i \in 1..Len(su) |-> <<su[i], IF PDim(sh) = 2 THEN FullD(2) ELSE FullD(1)>>]
+               ELSE IF out.dir = "v" THEN [j \in 1..Len(sv) |-> <<FullD(1), sv[j]>>]
                ELSE [x \in 1..(Len(su) * Len(sv)) |-> <<su[((x - 1) \div Len(sv)) + 1], sv[((x - 1) % Len(sv)) + 1]>>]
   IN /\ Len(out.pieces) = Len(boxes)                                  \* exactly one piece per non-empty span (pair)
      /\ \A x \in 1..Len(boxes) :
